@@ -76,13 +76,13 @@ CONFIGS = {
 
 # which trace-spec clauses decide which property
 CLAUSES = {
-    'C01': {'UtxoViewCorrect', 'NoUnexpectedDeath', 'ChainIsPath'},
+    'C01': {'UtxoViewCorrect', 'RawRowsClean', 'NoUnexpectedDeath', 'ChainIsPath'},
     'C02': {'HistCorrect', 'TxNumMap'},
-    'C03': {'ChainIsPath', 'UtxoViewCorrect', 'HistCorrect', 'TxNumMap', 'CaughtUpFresh', 'FinalAtTip',
+    'C03': {'ChainIsPath', 'UtxoViewCorrect', 'RawRowsClean', 'HistCorrect', 'TxNumMap', 'CaughtUpFresh', 'FinalAtTip',
             'NoUnexpectedDeath', 'NotStuck'},
-    'C04': {'ChainIsPath', 'UtxoViewCorrect', 'HistCorrect', 'TxNumMap', 'CaughtUpFresh', 'FinalAtTip',
+    'C04': {'ChainIsPath', 'UtxoViewCorrect', 'RawRowsClean', 'HistCorrect', 'TxNumMap', 'CaughtUpFresh', 'FinalAtTip',
             'RecoveredCommitted', 'NoUnexpectedDeath', 'NotStuck'},
-    'C05': {'ChainIsPath', 'UtxoViewCorrect', 'HistCorrect', 'TxNumMap', 'CaughtUpFresh', 'FinalAtTip',
+    'C05': {'ChainIsPath', 'UtxoViewCorrect', 'RawRowsClean', 'HistCorrect', 'TxNumMap', 'CaughtUpFresh', 'FinalAtTip',
             'RecoveredCommitted', 'NoUnexpectedDeath', 'NotStuck'},
     'C15': {'WindowPresent', 'PrunedOnOpen', 'UndoAvailable'},
 }
